@@ -64,6 +64,15 @@ THROWING_APIS = [
     (r"^std::future::get$", "env", "std::exception"),
     (r"^std::promise::set_value$", "env", "std::future_error"),
     (r"^std::chrono::.*", None, None),
+    # the std::filesystem operations: the overload without a std::error_code& reports failure by throwing (class "fs": state of
+    # the file system - a vanished file, a directory where a file was expected, EACCES)
+    (r"^std::filesystem::(file_size|exists|is_directory|is_regular_file|is_symlink|is_empty|is_other|is_block_file|is_character_file|is_fifo|is_socket|"
+     r"remove|remove_all|rename|copy|copy_file|copy_symlink|create_directory|create_directories|create_symlink|create_hard_link|create_directory_symlink|"
+     r"status|symlink_status|last_write_time|canonical|weakly_canonical|read_symlink|current_path|temp_directory_path|space|equivalent|hard_link_count|"
+     r"resize_file|permissions|absolute|relative|proximate|"
+     r"directory_iterator::directory_iterator|recursive_directory_iterator::recursive_directory_iterator|directory_iterator::operator\+\+|"
+     r"recursive_directory_iterator::operator\+\+|directory_entry::(file_size|exists|is_directory|is_regular_file|is_symlink|status|symlink_status|last_write_time|refresh|directory_entry))$",
+     "fs", "std::filesystem::filesystem_error"),
 ]
 # functions of the library that are treated as primitives (not descended into)
 PRIMITIVES = re.compile(r"^Oomd::(SystemMaybe::(value|operator\*|operator->|error)|CgroupPath::getParent)$")
@@ -128,6 +137,8 @@ class Escape:
                         continue
                     if cls == "empty":
                         continue       # std::function targets are resolved by the call graph (gap otherwise)
+                    if cls == "fs" and any("error_code" in t_ for t_ in n.get("ptypes", [])):
+                        continue       # the non-throwing overload
                     if self.guarded(f, i, c):
                         continue
                     out.append(Site(f, i, cls, exc, c.split("::")[-1] + " on " + (
